@@ -10,10 +10,14 @@ T == Traces[tid]
 S == T.steps[l]
 Init == /\ tid \in 1..Len(Traces) /\ l = 1 /\ a = AInit /\ m = MInit
         /\ want = [o \in Ovls |-> 0] /\ mwant = [o \in Ovls |-> 0] /\ fails = <<>> /\ TLCSet(tid, <<0, <<>>>>)
+\* probing() objects: the stream of a probe that has been left is completed - a stale handler of it that the token
+\* mechanism leaves installed is called but delivers nothing
+Live(a2, o) == IF T.mode = "probe" /\ ~IsOpen(a2, o) THEN 0 ELSE 1
 Mech(m2, mw2) == S.cur = m2.cur /\ \A o \in Ovls : Len(S.recv[o]) = mw2[o]
 Clauses(a2, w2) ==
   (IF S.cur = ACur(a2) THEN {}
    ELSE (IF \E i \in DOMAIN S.cur : S.cur[i] \in {"K1", "K2"} THEN {"DriverInheritsGenCollection"} ELSE {}) \cup
+        (IF Count(S.cur, "K3") # Count(ACur(a2), "K3") THEN {"EnclosingFunctionContext"} ELSE {}) \cup
         (IF \E o \in Ovls : ~IsOpen(a2, o) /\ Count(S.cur, Root(o)) > 0 THEN {"HandlersOfEndedOverlayInstalled"} ELSE {}) \cup
         (IF \E o \in Ovls : IsOpen(a2, o) /\ Count(S.cur, Root(o)) # 1 THEN {"OpenOverlayNotInstalled"} ELSE {}) \cup
         (IF S.cur # ACur(a2) THEN {"HandlersSeenByDriver"} ELSE {})) \cup
@@ -28,6 +32,12 @@ Step ==
        [] op[1] = "exit" ->
             LET a2 == [a EXCEPT !.open = SelectSeq(@, LAMBDA x : x # op[2])]  m2 == MExit(m, op[2])
             IN a' = a2 /\ m' = m2 /\ UNCHANGED <<want, mwant>> /\ fails' = Add(a2, want, m2, mwant)
+       [] op[1] = "drive" ->
+            LET a2 == [a EXCEPT !.indrive = TRUE, !.o3d = IsOpen(a, "o3")]  m2 == MDrive(m)
+            IN a' = a2 /\ m' = m2 /\ UNCHANGED <<want, mwant>> /\ fails' = Add(a2, want, m2, mwant)
+       [] op[1] = "undrive" ->
+            LET a2 == [a EXCEPT !.indrive = FALSE]  m2 == MUndrive(m)
+            IN a' = a2 /\ m' = m2 /\ UNCHANGED <<want, mwant>> /\ fails' = Add(a2, want, m2, mwant)
        [] op[1] = "new" ->
             LET a2 == [a EXCEPT !.gst[op[2]] = "new"]  m2 == MNew(m, op[2])
             IN a' = a2 /\ m' = m2 /\ UNCHANGED <<want, mwant>> /\ fails' = Add(a2, want, m2, mwant)
@@ -35,7 +45,7 @@ Step ==
             LET g == op[2]
                 w2 == [o \in Ovls |-> want[o] + ANextFires(a, g, o)]
                 r == MNext(m, g)
-                mw2 == [o \in Ovls |-> mwant[o] + IF o = "o1" THEN r.f1 ELSE r.f2]
+                mw2 == [o \in Ovls |-> mwant[o] + Live(a, o) * r.f[o]]
                 a2 == [a EXCEPT !.gst[g] = ANextState(@)]
             IN a' = a2 /\ m' = r.m /\ want' = w2 /\ mwant' = mw2 /\ fails' = Add(a2, w2, r.m, mw2)
        [] op[1] \in {"close", "drop"} ->
@@ -43,7 +53,7 @@ Step ==
             IN a' = a2 /\ m' = m2 /\ UNCHANGED <<want, mwant>> /\ fails' = Add(a2, want, m2, mwant)
        [] op[1] = "callg" ->
             LET w2 == [o \in Ovls |-> want[o] + ACallFires(a, o)]
-                mw2 == [o \in Ovls |-> mwant[o] + IF o = "o1" THEN FiresO1(m.cur) ELSE FiresO2(m.cur)]
+                mw2 == [o \in Ovls |-> mwant[o] + Live(a, o) * Fires(m.cur, o)]
             IN UNCHANGED <<a, m>> /\ want' = w2 /\ mwant' = mw2 /\ fails' = Add(a, w2, m, mw2)
 Spec == Init /\ [][Step]_vars
 Progress == TLCSet(tid, <<l - 1, fails>>)
